@@ -221,6 +221,8 @@ func c02Rules(p *core.Prog, r *core.Run) {
 
 	// --- A6: shape of marshal(aad)
 	c02MarshalAAD(p, r, m)
+	// ... and the common part binds every parsed field (the AAD covers the whole outer hello)
+	clientHelloGrammar(p, r, "C02.A6.grammar")
 }
 
 func short(e *core.Expr) string {
@@ -306,7 +308,36 @@ func c02HpkeOpen(p *core.Prog, r *core.Run, rule string) {
 		r.Check(rule, fmt.Sprintf("hpke.Open:increment#%d", i), errNil(s.Block()), p.InstrPos(s.Instr), "the sequence number advances only after a successful open")
 	}
 	r.Check(rule, "hpke.Open:increments", len(incs) == 1, p.Pos(fn.Pos()), "exactly one incrementNonce call (found %d)", len(incs))
-	r.Floor(rule, 7)
+	// incrementNonce really advances the stored sequence number
+	if inc := p.Func(HPKE, "(*context).incrementNonce"); inc != nil {
+		adv := false
+		for _, b := range inc.Blocks {
+			for _, in := range b.Instrs {
+				st, ok := in.(*ssa.Store)
+				if !ok {
+					continue
+				}
+				a, v := p.X(st.Addr), p.X(st.Val)
+				if a.Op == "field" && a.Name == "seqNum" && v.Op == "call" && strings.HasSuffix(v.Name, ".addOne") && len(v.Args) == 1 && v.Args[0].Op == "field" && v.Args[0].Name == "seqNum" {
+					adv = true
+				}
+			}
+		}
+		r.Check(rule, "hpke.incrementNonce:stores", adv, p.Pos(inc.Pos()), "incrementNonce stores seqNum.addOne() back into the context (addOne has a value receiver: calling it without using the result changes nothing, and a retried hello would be opened at the old sequence number)")
+		nn := p.Func(HPKE, "(*context).nextNonce")
+		uses := false
+		if nn != nil {
+			for _, s := range allCalls(p, []*ssa.Function{nn}) {
+				if strings.HasSuffix(s.X.Name, ".bytes") && len(s.X.Args) == 1 && s.X.Args[0].Op == "field" && s.X.Args[0].Name == "seqNum" {
+					uses = true
+				}
+			}
+		}
+		r.Check(rule, "hpke.nextNonce:uses-seq", uses, p.Pos(inc.Pos()), "the nonce is derived from the stored sequence number")
+	} else {
+		r.Undecided(rule, "hpke.incrementNonce", p.Pos(fn.Pos()), "incrementNonce not found")
+	}
+	r.Floor(rule, 9)
 }
 
 // c02ErrDiscipline: every call with an error result has that result used.
